@@ -87,6 +87,100 @@ let op_name (msg : byte list) (p : int) : string =
   let ti = match read_name msg Inline c with Ok (t, _) -> "ok:" ^ hex t | r -> pres r (fun _ -> "") in
   Printf.sprintf "RH=%s RI=%s SK=%s LB=%s TH=%s TI=%s" rh ri sk lb th ti
 
+
+(* ---- script op (coq/theories/Script.v) ---- *)
+let nstr (x : n) : string =
+  (* decimal printing of arbitrarily large N (u128 addresses) *)
+  let rec digits (x : n) (acc : string) : string =
+    match x with
+    | N0 -> if acc = "" then "0" else acc
+    | _ ->
+      let q = N.div x (n_of_int 10) and r = N.modulo x (n_of_int 10) in
+      digits q (string_of_int (int_of_n r) ^ acc) in
+  digits x ""
+
+let pmarker (m : marker) : string =
+  Printf.sprintf "M(%d,%d,%d,%d,%s,%d,%d)" (ni m.m_off) (ni m.m_type_off) (ni m.m_rtype) (ni m.m_rclass)
+    (nstr m.m_ttl) (ni m.m_rdlen) (ni m.m_section)
+
+let prdata (d : rdata) : string =
+  match d with
+  | RD_A a -> "D(A," ^ nstr a ^ ")"
+  | RD_Aaaa a -> "D(Aaaa," ^ nstr a ^ ")"
+  | RD_Name (ty, nm) -> Printf.sprintf "D(Name,%d,%s)" (ni ty) (hex nm)
+  | RD_Hinfo (a, b) -> Printf.sprintf "D(Hinfo,%s,%s)" (hex a) (hex b)
+  | RD_Wks (a, p, bm) -> Printf.sprintf "D(Wks,%s,%d,%s)" (nstr a) (ni p) (hex bm)
+  | RD_Minfo (a, b) -> Printf.sprintf "D(Minfo,%s,%s)" (hex a) (hex b)
+  | RD_Mx (p, e) -> Printf.sprintf "D(Mx,%d,%s)" (ni p) (hex e)
+  | RD_Null b -> "D(Null," ^ hex b ^ ")"
+  | RD_Soa (m, r, a, b, c, d, e) ->
+    Printf.sprintf "D(Soa,%s,%s,%s,%s,%s,%s,%s)" (hex m) (hex r) (nstr a) (nstr b) (nstr c) (nstr d) (nstr e)
+  | RD_Txt t -> "D(Txt," ^ hex t ^ ")"
+
+let pobs (o : obs) : string =
+  match o with
+  | OUnit -> ""
+  | ONum x -> nstr x
+  | OHeader h -> Printf.sprintf "H(%d,%d,%d,%d,%d,%d)" (ni h.h_id) (ni h.h_flags) (ni h.h_qd) (ni h.h_an) (ni h.h_ns) (ni h.h_ar)
+  | OQuestion (nm, qt, qc) -> Printf.sprintf "Q(%s,%d,%d)" (hex nm) (ni qt) (ni qc)
+  | OMarker m -> pmarker m
+  | OHeaderN (nm, m) -> Printf.sprintf "HN(%s,%s)" (hex nm) (pmarker m)
+  | OBytes (off, bs) -> Printf.sprintf "B(%d,%s)" (ni off) (hex bs)
+  | ORData d -> prdata d
+  | OOpt o -> Printf.sprintf "O(%d,%d,%d,%d)" (ni o.opt_payload) (ni o.opt_ext) (ni o.opt_ver)
+                (if opt_dnssec_ok o.opt_fl then 1 else 0)
+  | OQuestionRef _ | OHeaderRef _ | ONameRef _ -> "?ref"
+
+let plabels ls = "[" ^ String.concat "" (List.map (fun (p, b) -> string_of_int (ni p) ^ ":" ^ hex b ^ ",") ls) ^ "]"
+
+let psobs (s : sobs) : string =
+  let ok x = if x = "" then "ok" else "ok:" ^ x in
+  match s with
+  | SObs o -> ok (pobs o)
+  | SNref (idx, OQuestion (_, qt, qc)) -> Printf.sprintf "ok:QR(#%d,%d,%d)" (ni idx) (ni qt) (ni qc)
+  | SNref (idx, OMarker m) -> Printf.sprintf "ok:HR(#%d,%s)" (ni idx) (pmarker m)
+  | SNref (idx, _) -> Printf.sprintf "ok:NR(#%d)" (ni idx)
+  | SBool b -> Printf.sprintf "ok:%b" b
+  | SName t -> "ok:N(" ^ hex t ^ ")"
+  | SLabels (ls, e) -> "ok:L(" ^ plabels ls ^ "," ^ (match e with None -> "none" | Some e -> "err:" ^ perr e) ^ ")"
+  | SNoSuch -> "nosuch"
+  | SSkipped -> "skip"
+
+let pres_sobs (r : sobs res) : string =
+  match r with
+  | Ok s -> psobs s
+  | Err e -> "err:" ^ perr e
+  | UB -> "UB" | Panic -> "PANIC(overflow)" | DebugAssert -> "PANIC(debug_assert)" | OutOfFuel -> "OUTOFFUEL"
+
+let parse_call (c : string) : (n * bool) * call =
+  match String.split_on_char '.' c with
+  | [ri; rest] ->
+    let cond = String.length rest > 0 && rest.[0] = '?' in
+    let rest = if cond then String.sub rest 1 (String.length rest - 1) else rest in
+    let p = Array.of_list (String.split_on_char ':' rest) in
+    let num i = if p.(i) = "L" then n_of_int 99999 else n_of_int (int_of_string p.(i)) in
+    let nk s = if s = "H" then Heap else Inline in
+    ((n_of_int (int_of_string ri), cond),
+     match p.(0) with
+     | "header" -> CHeader | "seek" -> CSeek (num 1) | "qcount" -> CQCount | "rcount" -> CRCount
+     | "rcountin" -> CRCountIn (num 1) | "q" -> CQuestion | "qref" -> CQuestionRef | "theq" -> CTheQuestion
+     | "theqref" -> CTheQuestionRef | "skipq" -> CSkipQuestions | "marker" -> CMarker | "href" -> CHeaderRef
+     | "hdrH" -> CHeaderN Heap | "hdrI" -> CHeaderN Inline
+     | "skipd" -> CSkipData (num 1) | "bytes" -> CDataBytes (num 1) | "data" -> CData (num 1, num 2)
+     | "opt" -> COpt (num 1) | "bytesat" -> CBytesAt (num 1) | "dataat" -> CDataAt (num 1, num 2)
+     | "nrefat" -> CNameRefAt (num 1) | "nreq" -> CNrefEq (num 1, num 2) | "nrname" -> CNrefName (nk p.(1), num 2)
+     | "nrlabels" -> CNrefLabels (num 1)
+     | x -> failwith ("bad call " ^ x))
+  | _ -> failwith ("bad call " ^ c)
+
+let op_script (a : string array) : string =
+  let n = int_of_string a.(0) in
+  let msgs = List.init n (fun i -> unhex a.(1 + i)) in
+  let calls = if Array.length a > 1 + n then a.(1 + n) else "" in
+  let cs = List.filter (fun s -> s <> "") (String.split_on_char ',' calls) in
+  let rs = run_script (world_init msgs) (List.map parse_call cs) in
+  String.concat ";" (List.map pres_sobs rs)
+
 (* spec side of the names stream: the code-blind RFC expansion (Spec/WireName.v) *)
 let spec_name_line (msg : byte list) (p : int) : string =
   match spec_name msg (n_of_int p) with
@@ -101,6 +195,7 @@ let spec_name_line (msg : byte list) (p : int) : string =
 let dispatch (op : string) (a : string array) : string =
   match op with
   | "name" -> op_name (unhex a.(0)) (int_of_string a.(1))
+  | "script" -> op_script a
   | _ -> "BADOP(" ^ op ^ ")"
 
 let spec (op : string) (a : string array) : string option =
